@@ -3,7 +3,7 @@
 
    ONE function [prim_env : string -> list pv -> res pv], built from the existing C18 models of the Python library:
    Model/Dates.v (datetime.date attributes / constructor / isocalendar / strftime('%a') / timedelta arithmetic),
-   Model/StrFuncs.v (str.split / upper / lower / join, re.search / re.sub on literal patterns, textwrap.shorten,
+   Model/StrFuncs.v (str.split / upper / lower / join, re.search / re.match / re.sub on literal patterns, sorted(), textwrap.shorten,
    beancount.core.account, decimal arithmetic, int() / Decimal() / str() / bool() / strptime of every value).
    This is the TRUSTED part (what the library does); what Proofs/SrcEnv.v verifies on every run is how each beanquery
    function composes these calls: which call, argument order, the +1 / -1, which branch, which exceptions are caught.
@@ -17,7 +17,7 @@
    4 ZeroDivisionError, 5 TypeError, 6 decimal.InvalidOperation); [lift] renumbers them to PyMini's kinds. *)
 From Coq Require Import String Ascii ZArith List Bool.
 Import ListNotations.
-From Verif Require Import Base.Out Base.PyValue Model.PyMini Model.Dates Model.StrFuncs Gen.SrcEnv.
+From Verif Require Import Base.Out Base.StableSort Base.PyValue Model.PyMini Model.Dates Model.StrFuncs Gen.SrcEnv.
 Open Scope string_scope.
 Open Scope list_scope.
 Open Scope Z_scope.
@@ -296,6 +296,17 @@ Definition prim_fn (name : string) (args : list pv) : res pv :=
   else if String.eqb name "re.search" then           (* literal patterns *)
     match args with
     | [PV (VStr p); PV (VStr s)] => Ok (if find_sub p s then p_match p else PNone)
+    | _ => Stuck
+    end
+  else if String.eqb name "re.match" then            (* literal patterns: a match at the start *)
+    match args with
+    | [PV (VStr p); PV (VStr s)] => Ok (if prefix_of p s then p_match p else PNone)
+    | _ => Stuck
+    end
+  else if String.eqb name "builtins.sorted" then     (* of a set of strings *)
+    match args with
+    | [PList l] | [PTuple l] =>
+        match strs_of l with Some vs => Ok (PList (pstrs (isort list_le vs))) | None => Stuck end
     | _ => Stuck
     end
   else if String.eqb name "re.sub" then              (* literal patterns and replacements *)
